@@ -13,7 +13,8 @@ EXPLANATION = ("Drop accounting. R1 (commit <=> true): in every log_statement in
                "lose concurrent increments). R4: the number formatted into the notifier message is that result; the report runs on the "
                "idle path of the poll and in the exit drain, for every bounded-queue context. R5: control requests are retried until "
                "accepted (shared with C06.R1)."
-               " R6-R11 (= C03.R7, C02.R6, C04.R4, C17.R3, C10.R8, C03.R5): queue-kind tables, what 'empty' means, bytes reserved = bytes committed, accepted removals carried out, the drop report cannot end the process, a context is removed only when queue and buffer are empty.")
+               " R6-R11 (= C03.R7, C02.R6, C04.R4, C17.R3, C10.R8, C03.R5): queue-kind tables, what 'empty' means, bytes reserved = bytes committed, accepted removals carried out, the drop report cannot end the process, a context is removed only when queue and buffer are empty."
+               " R2 is decided per enumerator of MacroMetadata::Event under the assumption 'event() yields it': both statement kinds (Log, LogWithRuntimeMetadata) are counted on every dropped path, control events never; an unknown enumerator is analysis-broken. R12 (= C20.R5): a context leaves the backend's view only through the clean-up that reports its count. R13 (= C04.R2): the size cache is emptied at the start of every size pass, also after a refused statement.")
 NOT_DECIDED = ("delivered + discarded = attempted under every schedule as a count (behavioural; follows from R1 with C01/C03 as "
                "behaviour); the unbounded dropping queue reports no counts by design.")
 ASSUMPTIONS = ["C01-C03 for 'delivered intact and in order'"]
